@@ -126,7 +126,7 @@ def generate(seed, tier, index):
     for rep in range(nrep):
         sidx = 1 if (rep == 1 and len(scripts) > 1) else 0
         sp = scripts[sidx]["phys"]["sp"]
-        cap = (60 * sp["steps"] + 500) if kind == "gillespie" else (C.fixed_steps_needed(sp) + 5)
+        cap = (min(60 * sp["steps"], 60000) + 500) if kind == "gillespie" else (C.fixed_steps_needed(sp) + 5)
         plan = []
         for _ in range(rf.randint(1, 4)):
             c = rf.wchoice([("iterate", 1), ("iterate_n", 3), ("run", 2)])
